@@ -2,7 +2,7 @@
 
 (a) prefix safety of the framing layer, symbolic: for an arbitrary byte stream and cut point, feeding the cut stream
     delivers exactly a prefix of the frames of the full stream, each complete (real data_received).
-(b) the real 3-party runtime in the simulator with symbolic inputs: one party stops after w bytes written (crash points
+(b) the real 3-party runtime in the simulator with symbolic inputs: one party stops after k writes plus a partial one (crash points
     enumerated: frame boundaries, mid-header, mid-payload of each of its messages); every output a survivor completes
     must be the same term as in the crash-free run (decided by the solver for all input values)."""
 from vf.runner import Inst
@@ -10,15 +10,15 @@ from vf.runner import Inst
 PROPERTY = 'C36'
 LEVEL = 'model_checking'
 BOUNDS = {'quick': dict(a='stream 30 bytes, cut anywhere, <= 3 frames', b='m=3,t=1, PRSS on/off, program "two products and a comparison-free '
-                        'sum, three outputs", crashing party 0..2, crash points: every frame boundary, +5 bytes (mid-header), +13 bytes (mid-payload)'),
+                        'sum, three outputs" (outputs to all parties; and to parties 1,2 only with party 0 crashing), crashing party 0..2, crash points: after every write of the crashing party: at the frame boundary, 5 bytes into the next frame (mid-header), one byte before its end (mid-payload); connection reset at all points, orderly close at the mid-payload points'),
           'thorough': dict(a='stream 44 bytes', b='as quick plus m=4,t=1 and a second program with in_prod and list outputs')}
 OUTSIDE = ['crashes of more than one party', 'byte offsets other than the three positions per message (the symbolic part (a) covers every cut of the stream)',
            'surviving parties that hang: the property allows "does not complete"']
-ASSUMPTIONS = ['a crash delivers the bytes written so far and then closes the connection', 'C10 for chunkings of the delivered prefix']
+ASSUMPTIONS = ['a crash delivers the bytes written so far and then closes the connection (reset at every crash point; orderly close at mid-payload points)', 'C10 for chunkings of the delivered prefix']
 LEVEL_TEXT = ('(a) bounded symbolic model checking of the real framing code over all streams and cut points in the bound; (b) crash points are enumerated '
               '(stated as enumeration) while inputs and all randomness stay symbolic: for each crash point one symbolic run of the real runtime, '
               'obligations "every completed output equals the crash-free value" decided by z3.')
-LEVEL_NOTE = 'Trusted: z3, shadow-int engine, symbytes shims, simnet crash model (partial write, then connection loss).'
+LEVEL_NOTE = 'Trusted: z3, shadow-int engine, symbytes shims, simnet crash model (partial write, then connection loss; exceptions escaping callbacks are logged by the event loop, which keeps running, as asyncio does).'
 
 
 def h_prefix(env):
@@ -65,22 +65,26 @@ def _program(env, X, prog):
         a = mpc.input(secint(F(X[0])) if i == 0 else secint(0), senders=0)
         b = mpc.input(secint(F(X[1])) if i == 1 else secint(0), senders=1)
         c = mpc.input(secint(F(X[2])) if i == 2 % len(X) else secint(0), senders=2 % party.m)
-        if prog == 'products':
+        if prog in ('products', 'products_sub'):
             ys = [a * b, a * b + c, (a - c) * (b + 3)]
         else:
             ys = [mpc.in_prod([a, b], [b, c]), mpc.sum([a, b, c]), a * a]
+        # products_sub: outputs go to parties 1.. only (no survivor has to send anything to party 0 after the inputs)
+        kw = dict(receivers=list(range(1, party.m))) if prog == 'products_sub' else {}
         for j, y in enumerate(ys):
-            v = await mpc.output(y, raw=True)
-            done.append((j, v.value, F.modulus))
-        w = await mpc.output(ys, raw=True)
-        done.append(('all', [x.value for x in w], F.modulus))
+            v = await mpc.output(y, raw=True, **kw)
+            if v is not None:
+                done.append((j, v.value, F.modulus))
+        w = await mpc.output(ys, raw=True, **kw)
+        if w is not None and (not kw or i >= 1):
+            done.append(('all', [x.value for x in w], F.modulus))
         return True
     return body
 
 
 def _expected(X, prog):
     a, b, c = X
-    if prog == 'products':
+    if prog in ('products', 'products_sub'):
         return [a * b, a * b + c, (a - c) * (b + 3)]
     return [a * b + b * c, a + b + c, a * a]
 
@@ -88,7 +92,7 @@ def _expected(X, prog):
 def h_crash(env):
     from vf import simnet, kit, l1
     P = env.params
-    m, t, prss, prog, cp, w = P['m'], P['t'], P['prss'], P['prog'], P['crasher'], P['w']
+    m, t, prss, prog, cp, (nw, off) = P['m'], P['t'], P['prss'], P['prog'], P['crasher'], P['w']
     X = [env.fresh(f'x{i}', -11, 12) for i in range(3)]
     sim = simnet.Sim(env, m, t, ['-K', '30'] + ([] if prss else ['--no-prss']))
     for party in sim.parties:
@@ -101,10 +105,11 @@ def h_crash(env):
     sim.start(prg)
     written = [0]
     stopped = set()
+    logged = []
 
-    # crash model: party cp stops after w bytes written in total; the write in progress is truncated
-    for c in []:
-        pass
+    # crash model: party cp completes nw writes (one write per frame / handshake message) and stops `off` bytes into the next one.  Crash points
+    # are counted in writes, not bytes, because symbolic payloads cross the simulated wire as fixed-size tokens (a symbolic run and its
+    # concrete replay must cut the same frame at the same place: header bytes 0..11 are real in both)
     orig_write = simnet.SimTransport.write
 
     def write(self, data):
@@ -112,11 +117,10 @@ def h_crash(env):
         if src == cp:
             if cp in stopped:
                 return
-            room = w - written[0]
-            if len(data) >= room:
-                data = bytes(data)[:room]
+            if written[0] == nw:
+                data = bytes(data)[:off] if off < 12 else bytes(data)[:max(12, len(data) - 1)] if off == 13 else bytes(data)[:off]
                 stopped.add(cp)
-            written[0] += len(data)
+            written[0] += 1
         if src in stopped and src != cp:
             return
         return orig_write(self, data)
@@ -137,11 +141,17 @@ def h_crash(env):
                         loop.step()
                     except simnet.Deadlock:
                         raise
-                    except BaseException as e:          # noqa: a party that raises has stopped (allowed: "does not complete")
+                    except BaseException as e:          # noqa
                         from vf.symx import PathAbort, Unmodelled
                         if isinstance(e, (PathAbort, Unmodelled)):
                             raise
-                        stopped.add(i)
+                        # as in a real event loop: an exception escaping a callback or a task's done-callback is handed to the loop's exception
+                        # handler (logged) and the loop goes on; only the coroutine concerned stays unfinished ("does not complete")
+                        import os
+                        if os.environ.get('VF_DEBUG36'):
+                            import traceback
+                            traceback.print_exc()
+                        logged.append((i, type(e).__name__))
                         sim.net.errors.clear()
                     progressed = True
             for (c, side) in sim.net.deliverable():
@@ -158,7 +168,9 @@ def h_crash(env):
                         c.closed = True
                         other = 1 - c.pids.index(cp)
                         if c.pids[other] not in stopped:
-                            c.loops[other].call_soon(c.protos[other].connection_lost, ConnectionResetError('peer crashed'))
+                            # the peer's socket is closed by its OS: either a reset or an orderly FIN (connection_lost(None))
+                            c.loops[other].call_soon(c.protos[other].connection_lost,
+                                                     None if P.get('close') == 'clean' else ConnectionResetError('peer crashed'))
                             progressed = True
             if all(tk.done() for i, tk in enumerate(sim.tasks) if i not in stopped):
                 break
@@ -186,12 +198,13 @@ def h_crash(env):
             else:
                 env.eq(f'out[{j}]@{i}', kit.signed(env, v, p), want[j])
     env.observe('completed_outputs', ncompleted)
+    env.observe('exceptions_logged_by_the_event_loops', len(logged))
     z = env.fresh('z', 0, 2)
     env.check('marker(run_finished)', (z == 0) | (z == 1))
 
 
 def _reference_writes(m, t, prss, prog):
-    """frame boundaries of each party's writes in a crash-free concrete run (to place the crash points)."""
+    """number of writes (frames) of each party in a crash-free concrete run (to place the crash points)."""
     from vf import harness, simnet
     env = harness.Env('conc', values={}, seed=0)
     X = [3, -4, 5]
@@ -204,15 +217,15 @@ def _reference_writes(m, t, prss, prog):
         return await body(party, [])
     sim.start(prg)
     sim.run_canonical()
-    bounds = {i: [0] for i in range(m)}
+    counts = {i: 0 for i in range(m)}
     for (src, dst, data) in sim.net.wire:
-        bounds[src].append(bounds[src][-1] + len(data))
-    return bounds
+        counts[src] += 1
+    return counts
 
 
 def h_twin(env):
     """twin: claims that survivors always complete all outputs after a crash (false): must come back violated."""
-    env.params.update(dict(m=3, t=1, prss=True, prog='products', crasher=1, w=150))
+    env.params.update(dict(m=3, t=1, prss=True, prog='products', crasher=1, w=[8, 5]))
     h_crash(env)
     # re-derive the number of completed outputs from the observations
     n = [v for (l, v) in env.observed if l == 'completed_outputs'][-1]
@@ -231,7 +244,7 @@ def instances(tier):
     from vf import runner
     pkg = os.path.dirname(importlib.util.find_spec('mpyc').origin)
     hsh = hashlib.sha256(b''.join(open(os.path.join(pkg, f), 'rb').read() for f in ('runtime.py', 'asyncoro.py', 'thresha.py', 'finfields.py'))).hexdigest()[:12]
-    cache = os.path.join(runner.WORK, f'c36_bounds_{hsh}.json')
+    cache = os.path.join(runner.WORK, f'c36_writes_{hsh}.json')
     import json
     allb = {}
     if os.path.exists(cache):
@@ -240,22 +253,32 @@ def instances(tier):
         except Exception:
             allb = {}
     changed = False
+    OFFS = {0: 'frame boundary', 5: 'mid-header', 13: 'mid-payload (one byte short)'}
     for (m, t, prss, prog) in cfgs:
         key = f'{m},{t},{int(prss)},{prog}'
         if key not in allb:
-            b = _reference_writes(m, t, prss, prog)
-            allb[key] = {str(k): v for k, v in b.items()}
+            allb[key] = {str(k): v for k, v in _reference_writes(m, t, prss, prog).items()}
             changed = True
-        bounds = allb[key]
         for cp in range(m):
-            bs = bounds[str(cp)]
-            points = set()
-            for x in bs[1:-1]:
-                points.update([x, x + 5, x + 13])
-            points = sorted(p for p in points if 0 < p < bs[-1])
-            for w in points:
-                out.append(Inst(f'crash[m={m},t={t},prss={int(prss)},{prog},party={cp},w={w}]', h_crash,
-                                dict(m=m, t=t, prss=prss, prog=prog, crasher=cp, w=w), timeout=600, n_validate=0))
+            n = allb[key][str(cp)]
+            for k in range(1, n):
+                for off in (0, 5, 13):
+                    out.append(Inst(f'crash[m={m},t={t},prss={int(prss)},{prog},party={cp},after {k} writes+{off}]', h_crash,
+                                    dict(m=m, t=t, prss=prss, prog=prog, crasher=cp, w=[k, off]), timeout=600, n_validate=0))
+                # the same crash seen by the peers as an orderly close (FIN) instead of a reset: mid-payload points (a frame header is buffered)
+                if not q or prss:
+                    out.append(Inst(f'crash[m={m},t={t},prss={int(prss)},{prog},party={cp},after {k} writes+13,clean close]', h_crash,
+                                    dict(m=m, t=t, prss=prss, prog=prog, crasher=cp, w=[k, 13], close='clean'), timeout=600, n_validate=0))
+    # outputs to a receiver subset that excludes the crashing party 0: survivors never have to write to the dead party
+    key = '3,1,1,products_sub'
+    if key not in allb:
+        allb[key] = {str(k): v for k, v in _reference_writes(3, 1, True, 'products_sub').items()}
+        changed = True
+    for k in range(1, allb[key]['0']):
+        for off in ((0, 13) if q else (0, 5, 13)):
+            for close in ('clean', 'reset'):
+                out.append(Inst(f'crash[m=3,t=1,prss=1,products_sub,party=0,after {k} writes+{off},{close} close]', h_crash,
+                                dict(m=3, t=1, prss=True, prog='products_sub', crasher=0, w=[k, off], close=close), timeout=600, n_validate=0))
     if changed:
         os.makedirs(os.path.dirname(cache), exist_ok=True)
         json.dump(allb, open(cache, 'w'))
